@@ -39,6 +39,7 @@ func main() {
 		pilerd.Random(w, vt.Rand(*seed, "piler-random"), *n, *maxPairs)
 		w.Close()
 		fmt.Printf("instances=%d\n", *n)
+		fmt.Printf("probe_add_after_piles=%s\n", pilerd.ProbeAddAfterPiles())
 	default:
 		vt.Fatal("unknown mode %s", mode)
 	}
